@@ -1,6 +1,7 @@
 package rules
 
 import (
+	"go/types"
 	"golang.org/x/tools/go/ssa"
 
 	"iocvet/internal/core"
@@ -41,6 +42,23 @@ func withinRole(c *core.Ctx, fn *ssa.Function, ok func(*ssa.Function) bool, dept
 				return false
 			}
 			callers = append(callers, readers...)
+		}
+	}
+	// ... or a method handed out as a method value: it runs for whoever obtains the value from the function that binds it
+	if fn.Signature.Recv() != nil {
+		for _, g := range c.Scope {
+			if g.Pkg != fn.Pkg {
+				continue
+			}
+			for _, b := range g.Blocks {
+				for _, in := range b.Instrs {
+					if mc, isMC := in.(*ssa.MakeClosure); isMC {
+						if w, isFn := mc.Fn.(*ssa.Function); isFn && w != fn && resolveWrapper(w) == fn {
+							callers = append(callers, g)
+						}
+					}
+				}
+			}
 		}
 	}
 	if len(callers) == 0 {
@@ -242,4 +260,45 @@ func pureForwarder(fn *ssa.Function) *ssa.Function {
 		cal = o
 	}
 	return cal
+}
+
+// implementorsBehindFacades: the implementations of an interface of the module, without those that are only a facade -
+// a type every interface method of which forwards to the same-named method of another implementation.
+func implementorsBehindFacades(c *core.Ctx, pkg, name string) []*types.Named {
+	iface := c.Iface(pkg, name)
+	all := c.Implementors(iface)
+	if iface == nil || len(all) < 2 {
+		return all
+	}
+	isImpl := func(n *types.Named) bool {
+		for _, x := range all {
+			if x == n {
+				return true
+			}
+		}
+		return false
+	}
+	var out []*types.Named
+	for _, T := range all {
+		facade := iface.NumMethods() > 0
+		for i := 0; i < iface.NumMethods() && facade; i++ {
+			fn := c.DeclaredMethod(T, iface.Method(i).Name())
+			cal := pureForwarder(fn)
+			if cal == nil || cal.Signature.Recv() == nil || cal.Name() != iface.Method(i).Name() {
+				facade = false
+				break
+			}
+			u := core.NamedOf(cal.Signature.Recv().Type())
+			if u == nil || u == T || !isImpl(u) {
+				facade = false
+			}
+		}
+		if !facade {
+			out = append(out, T)
+		}
+	}
+	if len(out) == 0 {
+		return all
+	}
+	return out
 }
